@@ -1,3 +1,4 @@
+From Coq Require Import String.
 From Coq Require Import List ZArith Bool Lia.
 Import ListNotations.
 Require Import V.Lib.C29_Http V.Lib.C29_HttpProofs V.C33.Model.
@@ -234,4 +235,85 @@ Proof.
   cbn [fold_left]. unfold sse_line at 1. cbn [is_nil e_parts e_leid e_name e_retry e_events].
   rewrite Hp. cbn [app].
   destruct (join_with [10] (v :: vs')) eqn:J; [congruence|]. reflexivity.
+Qed.
+
+(* ---- the remaining field rules, as consequences of sse_line ---- *)
+Lemma sse_comment_ignored s rest : sse_line s (58 :: rest) = s.
+Proof. reflexivity. Qed.
+
+Definition no_colon (f : bytes) : bool := forallb (fun c => negb (c =? 58)) f.
+
+Lemma partition_field : forall fld v, no_colon fld = true -> partition_at 58 (fld ++ 58 :: v) = Some (fld, v).
+Proof.
+  induction fld as [|c t IH]; intros v H.
+  - reflexivity.
+  - cbn [no_colon forallb] in H. apply andb_true_iff in H. destruct H as [H1 H2]. apply negb_true_iff in H1.
+    cbn [app partition_at]. rewrite H1. fold (no_colon t) in H2. rewrite (IH v H2). reflexivity.
+Qed.
+
+Definition starts_sp (v : bytes) : bool := match v with 32 :: _ => true | _ => false end.
+
+(* exactly ONE leading space of the value is dropped *)
+Lemma sse_one_leading_space s f v : f <> [] -> no_colon f = true -> starts_sp v = false ->
+  sse_line s (f ++ 58 :: 32 :: v) = sse_line s (f ++ 58 :: v).
+Proof.
+  intros Hf Hc Hv. unfold sse_line.
+  assert (N1 : is_nil (f ++ 58 :: 32 :: v) = false) by (destruct f; [congruence|reflexivity]).
+  assert (N2 : is_nil (f ++ 58 :: v) = false) by (destruct f; [congruence|reflexivity]).
+  rewrite N1, N2. rewrite !partition_field by exact Hc.
+  destruct f as [|c t]; [congruence|].
+  replace (match v with 32 :: v0 => v0 | _ => v end) with v; [reflexivity|].
+  destruct v as [|x v']; [reflexivity|]. cbn in Hv.
+  destruct x as [|p|p]; try reflexivity.
+  repeat (destruct p as [p|p|]; try reflexivity); discriminate.
+Qed.
+
+Definition known_field (f : bytes) : bool :=
+  beq f (bz "event") || beq f (bz "data") || beq f (bz "id") || beq f (bz "retry").
+
+(* a field name that is not event / data / id / retry is ignored, with or without a value *)
+Lemma sse_unknown_field_ignored s f v : f <> [] -> no_colon f = true -> known_field f = false ->
+  sse_line s (f ++ 58 :: v) = s.
+Proof.
+  intros Hf Hc Hk. unfold sse_line.
+  assert (N : is_nil (f ++ 58 :: v) = false) by (destruct f; [congruence|reflexivity]).
+  rewrite N, partition_field by exact Hc. destruct f as [|c t]; [congruence|].
+  unfold known_field in Hk. apply orb_false_iff in Hk. destruct Hk as [Hk K4].
+  apply orb_false_iff in Hk. destruct Hk as [Hk K3]. apply orb_false_iff in Hk. destruct Hk as [K1 K2].
+  rewrite K1, K2, K3, K4. reflexivity.
+Qed.
+
+(* retry: a value that python's int() rejects (or that is not ASCII) leaves .retry unchanged;
+   one that it accepts sets it *)
+Lemma sse_retry_rule s v : starts_sp v = false ->
+  sse_line s (bz "retry" ++ 58 :: v) =
+  match (if all_ascii v then py_int 10 v else None) with
+  | Some n => {| e_leid := e_leid s; e_name := e_name s; e_parts := e_parts s; e_retry := Some n;
+                 e_events := e_events s; e_failed := false |}
+  | None => s
+  end.
+Proof.
+  intros Hv. unfold sse_line. cbn [is_nil bz app]. 
+  change (partition_at 58 (map _ _ ++ 58 :: v)) with (partition_at 58 ([114; 101; 116; 114; 121] ++ 58 :: v)).
+  rewrite partition_field by reflexivity.
+  replace (match v with 32 :: v0 => v0 | _ => v end) with v; [reflexivity|].
+  destruct v as [|x v']; [reflexivity|]. cbn in Hv.
+  destruct x as [|p|p]; try reflexivity.
+  repeat (destruct p as [p|p|]; try reflexivity); discriminate.
+Qed.
+
+(* id: the value (ANY bytes) becomes the last event id -- also a value containing NUL, which the
+   W3C text says to ignore: a documented deviation of the implementation, mirrored by the model *)
+Lemma sse_id_rule s v : starts_sp v = false ->
+  sse_line s (bz "id" ++ 58 :: v) =
+  {| e_leid := Some v; e_name := e_name s; e_parts := e_parts s; e_retry := e_retry s;
+     e_events := e_events s; e_failed := false |}.
+Proof.
+  intros Hv. unfold sse_line. cbn [is_nil bz app].
+  change (partition_at 58 (map _ _ ++ 58 :: v)) with (partition_at 58 ([105; 100] ++ 58 :: v)).
+  rewrite partition_field by reflexivity.
+  replace (match v with 32 :: v0 => v0 | _ => v end) with v; [reflexivity|].
+  destruct v as [|x v']; [reflexivity|]. cbn in Hv.
+  destruct x as [|p|p]; try reflexivity.
+  repeat (destruct p as [p|p|]; try reflexivity); discriminate.
 Qed.
